@@ -47,6 +47,7 @@ def main():
     ap.add_argument("--only", default="")
     ap.add_argument("--kind", default="all")
     ap.add_argument("--seed", type=int, default=0)
+    ap.add_argument("--ids", default="", help="regular expression the change id must match, e.g. '-[a-h]$'")
     a = ap.parse_args()
     only = set(x for x in a.only.split(",") if x)
     todo = []
@@ -56,6 +57,8 @@ def main():
         for f in sorted(glob.glob(os.path.join(ROOT, kind, "*", "meta.json"))):
             m = json.load(open(f))
             if only and m["property"] not in only:
+                continue
+            if a.ids and not __import__("re").search(a.ids, m["seed_id"]):
                 continue
             todo.append((kind if not m.get("known_miss") else "known-miss", m["seed_id"], m["property"], a.seed))
     bad = 0
